@@ -321,6 +321,42 @@ class V:
         return pd.DataFrame({k: pd.Series(self._conc_cells(vals, nulls, kind), dtype=DT[kind], index=idx) for k, kind, vals, nulls in data}, index=idx)
 
 
+    # ------------------------------------------------------------------ polars containers (stage 2 of DESIGN.md 2.3)
+    def plframe(self, cols, n, lazy=False, nan=False):
+        """cols: list of (name, kind[, nullable]); kind in int/float/str/bool.  Symbolic mode: a sympl frame; concrete mode: a
+        real polars frame with the model's values.  nan=True adds a NaN flag per float cell (distinct from null)."""
+        import polars as pl
+
+        import sympl
+
+        PLDT = {"int": pl.Int64, "float": pl.Float64, "str": pl.String, "bool": pl.Boolean}
+        data = {}
+        for c in cols:
+            name, kind = c[0], c[1]
+            nullable = True if len(c) < 3 or c[2] is None else c[2]
+            vals, nulls = self.cells(f"{name}_", kind, n, nullable)
+            nans = [self._var(f"{name}_{i}_nan", z3.BoolSort()) for i in range(n)] if (nan and kind == "float") else None
+            if self.sym:
+                data[name] = sympl.Col(vals, nulls, PLDT[kind], nans)
+            else:
+                cv = []
+                for i, (x, nl) in enumerate(zip(vals, nulls)):
+                    if bool(self.vals.term(nl)):
+                        cv.append(None)
+                    elif nans is not None and bool(self.vals.term(nans[i])):
+                        cv.append(float("nan"))
+                    else:
+                        t = self.vals.term(x)
+                        cv.append(float(t) if kind == "float" else t)
+                data[name] = pl.Series(name, cv, dtype=PLDT[kind])
+        if self.sym:
+            sympl.set_mode(True)
+            return (sympl.LazyFrame if lazy else sympl.DataFrame)(data, present=[z3.BoolVal(True)] * n)
+        sympl.set_mode(False)
+        df = pl.DataFrame(data) if data else pl.DataFrame()
+        return df.lazy() if lazy else df
+
+
 # ------------------------------------------------------------------ observations (comparable across modes)
 def norm_val(x):
     if x is None:
@@ -438,7 +474,9 @@ def comparable(o, vals: Vals | None = None):
     d = {"kind": o["kind"]}
     if o["kind"] == "accept":
         out = o["out"]
-        if isinstance(out, (symframe.Series, symframe.DataFrame)):
+        if _is_pl(out):
+            d["out"] = snap_pl(out, vals)
+        elif isinstance(out, (symframe.Series, symframe.DataFrame)):
             d["out"] = snap_shim(out, vals)
         elif isinstance(out, (pd.Series, pd.DataFrame)):
             d["out"] = snap_real(out)
@@ -448,13 +486,103 @@ def comparable(o, vals: Vals | None = None):
     elif o["kind"] == "SchemaErrors":
         d["reasons"] = o["reasons"]
         fc = o["fc"]
-        if isinstance(fc, symframe.DataFrame):
+        if _is_pl(fc):
+            d["fc"] = fc_rows_pl(fc, vals, noindex=bool(o.get("_noindex")))
+        elif isinstance(fc, symframe.DataFrame):
             d["fc"] = fc_rows_shim(fc, vals)
         elif isinstance(fc, pd.DataFrame):
             d["fc"] = fc_rows_real(fc)
     elif o["kind"] == "SchemaError":
         d["reason"] = o["reason"]
     return d
+
+
+# ------------------------------------------------------------------ polars observations
+def _is_pl(x):
+    import polars as pl
+
+    import sympl
+
+    return isinstance(x, (pl.DataFrame, pl.LazyFrame, sympl.DataFrame, sympl.LazyFrame))
+
+
+def pl_kind(x):
+    """container kind, the same word for the shim and the real class"""
+    return type(x).__name__
+
+
+def _pl_num(x):
+    if isinstance(x, str):
+        try:
+            return round(float(x), 9)
+        except ValueError:
+            return x
+    return x
+
+
+def snap_pl(obj, vals: Vals | None = None):
+    """rows of a polars frame (shim under an assignment, or real) -> {kind, columns, dtypes, rows | collect_error}"""
+    import polars as pl
+
+    import sympl
+
+    if isinstance(obj, (sympl.LazyFrame, sympl.DataFrame)):
+        d = {"kind": pl_kind(obj), "columns": list(obj.cols), "dtypes": [str(c.dtype) for c in obj.cols.values()]}
+        if any(bool(_evv(vals, e)) for e in obj._errors):
+            d["collect_error"] = True
+            return d
+        rows = []
+        for i, p in enumerate(obj.present):
+            if _evv(vals, p):
+                row = []
+                for k, c in obj.cols.items():
+                    if _evv(vals, c.nulls[i]):
+                        row.append(None)
+                    elif c.nans is not None and _evv(vals, c.nans[i]):
+                        row.append("NaN")
+                    else:
+                        row.append(norm_val(_evv(vals, c.vals[i])))
+                rows.append(row)
+        d["rows"] = rows
+        return d
+    d = {"kind": pl_kind(obj)}
+    try:
+        df = obj.collect() if isinstance(obj, pl.LazyFrame) else obj
+    except Exception:  # noqa: BLE001 - a lazily failing cast surfaces at collect()
+        sch = obj.collect_schema()
+        d.update(columns=list(sch.names()), dtypes=[str(x) for x in sch.dtypes()], collect_error=True)
+        return d
+    d.update(columns=list(df.columns), dtypes=[str(x) for x in df.dtypes])
+    d["rows"] = [["NaN" if isinstance(x, float) and x != x else norm_val(x) for x in r] for r in df.rows()]
+    return d
+
+
+def fc_rows_pl(fc, vals: Vals | None = None, noindex=False):
+    """polars failure-case table -> sorted rows (schema_context, column, check, index, failure_case); rendered text of
+    numbers is compared numerically"""
+    import sympl
+
+    rows = []
+    if isinstance(fc, (sympl.DataFrame, sympl.LazyFrame)):
+        cols = fc.cols
+
+        def g(k, r):
+            c = cols[k]
+            if _evv(vals, c.nulls[r]):
+                return None
+            if c.nans is not None and _evv(vals, c.nans[r]):
+                return "NaN"
+            return norm_val(_evv(vals, c.vals[r]))
+
+        for r, p in enumerate(fc.present):
+            if _evv(vals, p):
+                rows.append((str(g("schema_context", r)), str(g("column", r)), str(g("check", r)).split("(")[0],
+                             None if noindex else g("index", r), _pl_num(norm_case(g("failure_case", r)))))
+    else:
+        for r in fc.iter_rows(named=True):
+            rows.append((str(r["schema_context"]), str(r["column"]), str(r["check"]).split("(")[0], None if noindex else norm_val(r["index"]),
+                         _pl_num(norm_case(r["failure_case"]))))
+    return sorted(rows, key=repr)
 
 
 def jsonable(x):
